@@ -167,6 +167,7 @@ type wcase struct {
 	expected                     []byte
 	timing                       bool
 	cliTmo                       bool   // use the http.Client with its own Timeout
+	dl                           int    // caller's context: 0 plain cancel; 1 context.WithDeadline (30 s ahead), cancelled by the script; 2 a deadline context that reports DeadlineExceeded when the script ends it; 3 WithDeadline, generous, never reached
 	noBackoff, noPath, nopLogger bool   // option subset: WithAPIBackoff / WithAPIPath omitted, a do-nothing WithAPILogger added
 	order                        uint64 // seed of the order in which the options are passed to NewAPI
 	path                         string // request path seen by the server
@@ -186,6 +187,21 @@ type wcase struct {
 }
 
 type caseKey struct{}
+
+// dlCtx is a context with a deadline whose expiry is triggered by the script (through the wrapped cancel function)
+// instead of by the clock, so that "the deadline expires during the backoff wait" needs no real waiting.
+type dlCtx struct {
+	context.Context
+	dl time.Time
+}
+
+func (d dlCtx) Deadline() (time.Time, bool) { return d.dl, true }
+func (d dlCtx) Err() error {
+	if d.Context.Err() != nil {
+		return context.DeadlineExceeded
+	}
+	return nil
+}
 
 type scriptServer struct{ cases sync.Map }
 
@@ -362,7 +378,7 @@ func classify(err error) (int, int) {
 	if err == nil {
 		return 0, 0
 	}
-	if err == context.Canceled {
+	if err == context.Canceled || err == context.DeadlineExceeded { // the caller's context error, returned as is
 		return 8, 0
 	}
 	msg := err.Error()
@@ -541,6 +557,15 @@ func genWriteCase(r *emit.Rng, idx int) *wcase {
 		if a.kind == 2 && (a.status/100 == 5 || a.status == 429) {
 			a.retryAfter, a.raDate, a.cancel = "3600", nil, 3
 			c.tags = append(c.tags, "cancel:in-wait")
+			// the context may carry a deadline that is (much) shorter than this wait
+			if c.dl = r.Intn(3); c.dl > 0 {
+				c.tags = append(c.tags, "deadline:shorter-than-retry-after")
+			}
+		}
+	default:
+		if r.Chance(1, 5) {
+			c.dl = 3
+			c.tags = append(c.tags, "deadline:generous")
 		}
 	}
 	if c.noBackoff {
@@ -634,6 +659,20 @@ func timingCases(base int) []*wcase {
 		c.script = script
 		out = append(out, c)
 	}
+	// the context's deadline (30 s) is shorter than the first backoff delay (1 h); the context ends during that wait
+	dlc := func(i, dl int, ty string, first attemptSpec) {
+		first.cancel = 3
+		c := &wcase{key: "d" + strconv.Itoa(i), min: time.Hour, max: time.Hour, maxRetr: 3, retry429: true, dl: dl,
+			ty: ty, kind: 1, tags: []string{"deadline:shorter-than-backoff", "cancel:in-wait", "path:gogo", "size:small"}}
+		c.msg, c.expected = mkMsg(1, uint64(base+200+i), []byte("deadline"))
+		c.script = []attemptSpec{first, {kind: 2, status: 200, samples: "1"}}
+		out = append(out, c)
+	}
+	dlc(0, 1, v1Name, attemptSpec{kind: 2, status: 503})
+	dlc(1, 2, v2Name, attemptSpec{kind: 2, status: 500, samples: "3"})
+	dlc(2, 1, v2Name, attemptSpec{kind: 0})
+	dlc(3, 2, v1Name, attemptSpec{kind: 3, fault: 0})
+	dlc(4, 1, v2Name, attemptSpec{kind: 2, status: 429, retryAfter: "5"})
 	tmo(0, v1Name, []attemptSpec{{kind: 4}, {kind: 2, status: 200}})
 	tmo(1, v2Name, []attemptSpec{{kind: 2, status: 503, samples: "2"}, {kind: 4}, {kind: 2, status: 204, samples: "1"}})
 	tmo(2, v2Name, []attemptSpec{{kind: 4}, {kind: 4}, {kind: 2, status: 400}})
@@ -765,7 +804,19 @@ func runWriteStream(c *cli.Ctx, rng *emit.Rng, direct *[]map[string]interface{})
 					apiMu.Unlock()
 				}
 				srv.cases.Store(cs.key, cs)
-				ctx, cancel := context.WithCancel(context.WithValue(context.Background(), caseKey{}, cs))
+				base := context.WithValue(context.Background(), caseKey{}, cs)
+				var ctx context.Context
+				var cancel context.CancelFunc
+				switch cs.dl {
+				case 1, 3:
+					ctx, cancel = context.WithDeadline(base, time.Now().Add(30*time.Second))
+				case 2:
+					var inner context.Context
+					inner, cancel = context.WithCancel(base)
+					ctx = dlCtx{inner, time.Now().Add(30 * time.Second)}
+				default:
+					ctx, cancel = context.WithCancel(base)
+				}
 				cs.cancel = cancel
 				done := make(chan struct{})
 				go func() {
